@@ -442,6 +442,11 @@ static void sec_scripts(vf::Ctx& c) {
 
 int main(int argc, char** argv) {
     struct rlimit nocore = { 0, 0 }; setrlimit(RLIMIT_CORE, &nocore);     // children die of SIGSEGV/SIGABRT/SIGQUIT on purpose
+    // Ignored signals and the signal mask are inherited across exec (nohup ignores SIGHUP, a non-interactive shell
+    // ignores SIGINT/SIGQUIT for background jobs): start every signal from its default action, unblocked, so that
+    // "raise(sig) kills the child" does not depend on how the check was launched.
+    for (int sgn = 1; sgn < 32; sgn++) if (sgn != SIGKILL && sgn != SIGSTOP) signal(sgn, SIG_DFL);
+    { sigset_t none; sigemptyset(&none); sigprocmask(SIG_SETMASK, &none, nullptr); }
     std::vector<vf::Section> S = {
         { "real_signals_x_crashpoints", 31 * W_N, 31 * W_N, sec_signals, true },
         { "real_exit_statuses", 40, 512, sec_exit, false },
